@@ -5,3 +5,4 @@ import Osmt.Cdcl
 import Osmt.LA
 import Osmt.EUF
 import Osmt.Smt
+import Osmt.Model
